@@ -112,6 +112,9 @@ class Policy(object):
     def subscript_raises(self, node, frame):
         return frozenset()
 
+    def compare_raises(self, node, frame):
+        return frozenset()
+
 
 class LazyMap(object):
     """atom -> node, built on demand and memoised"""
@@ -184,22 +187,26 @@ def _contains_call(e):
 
 
 class _BoolOpRewriter(ast.NodeTransformer):
-    """`a or f()` in value position -> `a if a else f()` (only when a later operand contains a call and the first
-    operand does not), so that the call is on a conditional path."""
+    """value-position `a and f()` / `f() or b` -> conditional expression, so that short-circuited calls sit on a
+    conditional path.  When the first operand itself contains a call it is evaluated once (in the test) and the
+    short-circuit result is approximated by the constant False / True (same truthiness)."""
 
     def visit_Lambda(self, n):
         return n
 
     def visit_BoolOp(self, n):
         self.generic_visit(n)
-        if len(n.values) >= 2 and any(_contains_call(v) for v in n.values[1:]) and not _contains_call(n.values[0]):
+        if len(n.values) >= 2 and any(_contains_call(v) for v in n.values):
             first = n.values[0]
             rest = n.values[1] if len(n.values) == 2 else ast.BoolOp(op=n.op, values=n.values[1:])
+            if isinstance(rest, ast.BoolOp):
+                rest = self.visit_BoolOp(rest)
+            again = copy.deepcopy(first) if not _contains_call(first) else None
             if isinstance(n.op, ast.Or):
-                new = ast.IfExp(test=first, body=copy.deepcopy(first), orelse=rest)
+                new = ast.IfExp(test=first, body=again if again is not None else ast.Constant(value=True), orelse=rest)
             else:
-                new = ast.IfExp(test=first, body=rest, orelse=copy.deepcopy(first))
-            return ast.copy_location(ast.fix_missing_locations(ast.copy_location(new, n)), n)
+                new = ast.IfExp(test=first, body=rest, orelse=again if again is not None else ast.Constant(value=False))
+            return ast.fix_missing_locations(ast.copy_location(new, n))
         return n
 
 
@@ -299,6 +306,13 @@ class Builder(object):
                 if pol.subscript_raises(n, frame):
                     out.append(n)
                 return
+            if isinstance(n, ast.Compare):
+                visit(n.left)
+                for c_ in n.comparators:
+                    visit(c_)
+                if pol.compare_raises(n, frame):
+                    out.append(n)
+                return
             for ch in ast.iter_child_nodes(n):
                 visit(ch)
         if e is not None:
@@ -319,6 +333,12 @@ class Builder(object):
                 n = self.node('subscript', c, frame, what='subscript ' + norm(c))
                 n.edge('next', nxt)
                 for a in sorted(self.policy.subscript_raises(c, frame)):
+                    n.edge('exc:' + a, ctx.exc[a])
+                nxt = n
+            elif isinstance(c, ast.Compare):
+                n = self.node('compare', c, frame, what='compare ' + norm(c))
+                n.edge('next', nxt)
+                for a in sorted(self.policy.compare_raises(c, frame)):
                     n.edge('exc:' + a, ctx.exc[a])
                 nxt = n
             else:
@@ -552,7 +572,7 @@ class Builder(object):
     def _split(self, s, ctx, frame, rebuild):
         """if statement s contains an IfExp (or a BoolOp whose later operands call), branch on it"""
         s2 = _BoolOpRewriter().visit(copy.deepcopy(s)) if any(
-            isinstance(n, ast.BoolOp) and any(_contains_call(v) for v in n.values[1:]) for n in ast.walk(s)) else s
+            isinstance(n, ast.BoolOp) and any(_contains_call(v) for v in n.values) for n in ast.walk(s)) else s
         if _find_ifexp(s2) is None:
             return None
         sp_t = _IfExpSplitter(True)
